@@ -474,7 +474,7 @@ impl Oti {
             FECEncodingID::ReedSolomonGF2M => 0xFFFFFFFFFFFF, // 48 bits max
             FECEncodingID::ReedSolomonGF28 => 0xFFFFFFFFFFFF, // 48 bits max
             FECEncodingID::ReedSolomonGF28UnderSpecified => 0xFFFFFFFFFFFF, // 48 bits max
-            FECEncodingID::RaptorQ => 0xFFFFFFFFFFF, // 40 bits max
+            FECEncodingID::RaptorQ => 0xFFFFFFFFFF, // 40 bits max
             FECEncodingID::Raptor => 0xFFFFFFFFFFFF, // 48 bits max
         };
 
